@@ -15,6 +15,8 @@ pub struct C02;
 const DET_C: f64 = 16.0;
 /// |X - X_exact|_max <= INV_C * n * eps * kappa_inf * max|X_exact|; worst observed ratio 0.55
 const INV_C: f64 = 64.0;
+/// gradual-underflow allowance for the subnormal-column determinant: UF_C * n^2 * rho * 2^(k-1074) * (column Hadamard bound)
+const UF_C: f64 = 32.0;
 
 const SING: [&str; 6] = ["dup-row", "row-combination", "zero-row", "zero-col", "low-rank", "dup-col"];
 
@@ -163,6 +165,52 @@ fn run_t<T: Elem>(case: &mut Case) -> Outcome {
         }
         case.class("determinant of a badly scaled variant");
     }
+    // ---- f64: one column made of subnormal numbers (times 2^-k, 1026 <= k <= 1040: every pivot candidate of that
+    //      column is subnormal) and another one times 2^k2, 700 <= k2 <= 900 (head-room for element growth and for the running product of the
+    //      pivots), so that the determinant det(A') 2^(k2-k) is an ordinary number.  Judged when every reference pivot
+    //      is >= 1/4 in modulus, so that a partial product of pivots that lands in the subnormal range keeps a relative
+    //      precision of 4^n 2^(k-1074).  Elimination is invariant under column scaling except for gradual
+    //      underflow (absolute error 2^-1074 per operation in the tiny column, i.e. 2^(k-1074) relative to it).
+    if T::NAME == "f64" && n >= 2 && n <= 5 && !singular && case.src.below(4) == 0 {
+        let k = 1026 + case.src.below(15) as i32;
+        let k2 = 700 + case.src.below(201) as i32;
+        let cs = case.src.usize_below(n);
+        let cb = (cs + 1 + case.src.usize_below(n - 1)) % n;
+        let ld = |x: f64, e: i32| x * 2f64.powi(e / 2) * 2f64.powi(e - e / 2);
+        let f: M<f64> = a0.iter().map(|r| r.iter().map(|v| v.to_c().0).collect()).collect();
+        let b: M<f64> = f.iter().map(|r| r.iter().enumerate().map(|(j, v)| if j == cs { ld(*v, -k) } else if j == cb { ld(*v, k2) } else { *v }).collect()).collect();
+        // exact twin: the tiny column scaled back up exactly, the big one down
+        let up: M<f64> = b.iter().map(|r| r.iter().enumerate().map(|(j, v)| if j == cs { ld(*v, k) } else if j == cb { ld(*v, -k2) } else { *v }).collect()).collect();
+        if let Some(upx) = mat_exact(&up) {
+            let (dx, rk) = refla::det_rank(&upx);
+            if !crate::rat::overflowed() && rk == n {
+                let upc = mat_c(&up);
+                let infu = refla::gepp(&upc, None);
+                let db = match catch(|| to_matrix(&b, n, n).determinant()) {
+                    Ok(d) => d,
+                    Err(e) => return Outcome::Fail(format!("determinant() panicked on a matrix with a subnormal column: {}", e)),
+                };
+                if !db.is_finite() {
+                    return Outcome::Fail(format!("determinant of a matrix with a subnormal column (column {} times 2^-{}, column {} times 2^{}) is {:?}; exact value {:?} * 2^{}; matrix {:?}", cs, k, cb, k2, db, dx, k2 - k, b));
+                }
+                let ex = <f64 as Elem>::x_to_c(&dx).0 * 2f64.powi(k2 - k);
+                let hc: f64 = (0..n).map(|j| (0..n).map(|i| up[i][j] * up[i][j]).sum::<f64>().sqrt()).product::<f64>() * 2f64.powi(k2 - k);
+                let rho = infu.growth.max(1.0);
+                let amax = up.iter().flatten().fold(0.0f64, |m, v| m.max(v.abs()));
+                if !(infu.min_pivot_rel * amax >= 0.25) {
+                    return Outcome::Pass;
+                }
+                let unit = (n * n * n) as f64 * EPS * rho * hc;
+                let uf = (n * n) as f64 * rho * ld(1.0, k - 1074) * 4f64.powi(n as i32) * hc;
+                let err = (db - ex).abs();
+                crate::calib::note("c02.det(subnormal column) (err - DET_C unit)/uf", (err - DET_C * unit) / uf, || format!("{} n={} k={} k2={}", kind, n, k, k2));
+                if !(err <= DET_C * unit + UF_C * uf) {
+                    return Outcome::Fail(format!("determinant of a matrix with a subnormal column is {:?}, exact {:?} (error {:.3e} > {:.3e}); matrix {:?}", db, ex, err, DET_C * unit + UF_C * uf, b));
+                }
+                case.class("determinant with a subnormal column");
+            }
+        }
+    }
     // ---- transpose invariance and multiplicativity (exact types)
     if T::EXACT {
         let at = refla::transpose(&a, n);
@@ -255,10 +303,11 @@ impl Prop for C02 {
             "exact oracle in i128 rationals; overflowing cases discarded and counted".into(),
             format!("float determinant bound {}*n^3*eps*max(1,rho_ref)*prod(row 2-norms); a structurally zero row/column must give exactly 0", DET_C),
             format!("float inverse bound {}*n*eps*kappa_inf*max|X_exact| against the exact rational inverse", INV_C),
+            format!("f64 determinant with one subnormal column (times 2^-k, 1026..1040) and one large column (times 2^700..2^900): bound {}*n^3*eps*rho*Hc + {}*n^2*rho*4^n*2^(k-1074)*Hc (n <= 5, reference pivots >= 1/4) with Hc the product of the column 2-norms (elimination is column-scaling invariant up to gradual underflow)", DET_C, UF_C),
         ]
     }
     fn stream_len(&self, _tier: Tier) -> usize {
-        320
+        480
     }
     fn random_cases(&self, tier: Tier) -> usize {
         tier.pick(100_000, 2_000_000)
